@@ -121,7 +121,7 @@ func TestVerifC13Race(t *testing.T) {
 						add("OMkdir "+gStr(d), ob, "mkdir "+d)
 					}
 					names := []string{p + "sa/m", p + "sb/m"}
-					for k := 0; k < 300; k++ {
+					for k := 0; k < 120; k++ {
 						a, b := names[k%2], names[(k+1)%2]
 						ob := "VUnit"
 						if err := fs.Rename(a, b); err != nil {
